@@ -157,6 +157,32 @@ func rR1(c *Ctx, plugins ...string) {
 			if blank {
 				continue
 			}
+			// the text of a type must come from TypeString (the qualifier of the generated file, which also registers the import)
+			rawType := false
+			for id, h := range rs.Run.Holes {
+				if h.Kind != "RAWTYPE" || rawType {
+					continue
+				}
+				for li, l := range strings.Split(rs.Run.Text, "\n") {
+					if !strings.Contains(l, id) {
+						continue
+					}
+					rawType = true
+					fn := "?"
+					where := []string{}
+					if li < len(rs.Run.LinePos) {
+						fn = c.R.repo.funcAt(rs.Run.LinePos[li])
+						where = append(where, rs.Run.where(c.Repo, li+1))
+					}
+					c.Rep.fail(Finding{Rule: "R1", Key: fmt.Sprintf("R1|%s|%s|raw-type-text", p, fn), Where: where, Plugin: p, Script: rs.Run.Script,
+						Msg:    fmt.Sprintf("plugin %s prints a go/types value (%s) with its own String method into the emitted code instead of through TypeString: the text is qualified with full import paths (`encoding/json.Number`, for a type of the package being generated `..Point`) and no import is registered, so for every type that is not predeclared goderive exits 0 and derived.gen.go does not parse or does not compile", p, h.Origin),
+						Detail: "abstract path: " + rs.Run.describe() + "\nresidual:\n" + rs.Run.excerpt(40)})
+					break
+				}
+			}
+			if rawType {
+				continue
+			}
 			// reflect+unsafe access to an unexported field of an imported struct: the cast type must be that field's own type
 			badCast := false
 			for _, m := range unsafeCastRe.FindAllStringSubmatch(rs.Run.Text, -1) {
